@@ -90,6 +90,9 @@ pub struct Scn {
     pub duration_ms: u64,
     pub conns: Vec<Conn>,
     pub faults: Vec<PF>,
+    /// privileges.drop_privileges: the socket workers rendezvous at a barrier after binding (the chroot itself is not simulated)
+    #[serde(default)]
+    pub drop_priv: bool,
 }
 
 pub const HEADER_NAME: &str = "X-Forwarded-For";
@@ -531,6 +534,7 @@ fn client_main(idx: usize, scn: Arc<Scn>, col: Arc<Mutex<Collected>>) {
 
 fn build_config(scn: &Scn, dir: &std::path::Path) -> Config {
     let mut c = Config::default();
+    c.privileges.drop_privileges = scn.drop_priv;
     c.socket_workers = scn.socket_workers.max(1) as usize;
     c.swarm_workers = scn.swarm_workers.max(1) as usize;
     match scn.layout % 4 {
@@ -827,6 +831,25 @@ impl Harness for HttpSys {
                 faults.push(f);
             }
         }
+        // a kept-alive connection in steady use: one kind of request every few seconds, each gap shorter than
+        // max_connection_idle, the whole longer than max_connection_idle plus a cleaning tick
+        let steady = keep_alive && !c18 && !c19 && r.chance(200);
+        if steady {
+            let kind = r.below(4);
+            let t = r.below(n_torrents as u64) as u8;
+            let mut script = Vec::new();
+            for k in 0..r.range(5, 8) {
+                script.push(match if kind == 3 { k % 3 } else { kind } {
+                    0 => HOp::Scr { ts: vec![t], seg: vec![], hdr: 0 },
+                    1 => HOp::Ann { t, ev: 0, left: 1, want: Some(2), port: 1000, pid: 5, style: 0, seg: vec![], hdr: 0 },
+                    // a torrent the access list may forbid
+                    _ => HOp::Ann { t: r.below(6) as u8, ev: 0, left: 1, want: Some(2), port: 1000, pid: 5, style: 0, seg: vec![], hdr: 0 },
+                });
+                script.push(HOp::Sleep { ms: *r.pick(&[1000u32, 2500, 3000]) });
+            }
+            let i = conns.len();
+            conns.push(Conn { v6: layout % 4 == 2, ac: 0, h: 10 + i as u16, sport: 2000 + i as u16, pick: 0, write_caps: vec![], slow_read: 0, script });
+        }
         let reloads = if access_mode != 0 { (0..r.below(3)).map(|_| (r.range(500, 20000) as u32, (0..r.below(4)).map(|_| r.below(6) as u8).collect(), r.chance(250))).collect() } else { vec![] };
         Scn {
             socket_workers,
@@ -837,8 +860,8 @@ impl Harness for HttpSys {
             max_scrape_torrents,
             max_peer_age: 1800,
             cleaning_interval: *r.pick(&[5u64, 30]),
-            conn_cleaning_interval: *r.pick(&[2u64, 10, 60]),
-            max_connection_idle: if r.chance(250) { *r.pick(&[2u32, 5]) } else { 180 },
+            conn_cleaning_interval: if steady { 2 } else { *r.pick(&[2u64, 10, 60]) },
+            max_connection_idle: if steady { 5 } else if r.chance(250) { *r.pick(&[2u32, 5]) } else { 180 },
             behind_proxy,
             access_mode,
             access_list,
@@ -848,9 +871,10 @@ impl Harness for HttpSys {
             sched_seed: r.next_u64(),
             entropy_seed: r.next_u64(),
             yield_permille: *r.pick(&[0u32, 200, 700]),
-            duration_ms: if c19 { 40_000 } else { r.range(8_000, 30_000) },
+            duration_ms: if c19 { 40_000 } else if steady { 30_000 } else { r.range(8_000, 30_000) },
             conns,
             faults,
+            drop_priv: r.chance(300),
         }
     }
 
@@ -920,6 +944,10 @@ impl Harness for HttpSys {
             unplanned_death = true;
             let sig = if msg.contains("no corresponding IP header") { "http-proxy-header-missing-panic" } else if msg.contains("overflow") { "arithmetic-overflow" } else { "tracker-thread-panic" };
             violations.push(Violation::new("C12", "no-panic-on-network-input", sig, format!("tracker thread {} panicked: {}", name, msg)));
+            // whatever property this run samples, a tracker that dies of its own accord no longer serves anybody
+            if prop != "C12" && scn.faults.is_empty() {
+                violations.push(Violation::new(prop, "tracker-stays-up", "tracker-thread-panic", format!("tracker thread {} panicked without an injected fault: {}", name, msg)));
+            }
         }
         // ---- C19
         {
